@@ -81,6 +81,44 @@ def build_harness(workdir, tags="verif", race=False, name="wverif"):
     return out
 
 
+HARNESS_MEM_GB = 10
+
+
+def _limit_as():
+    import resource
+    lim = HARNESS_MEM_GB << 30
+    resource.setrlimit(resource.RLIMIT_AS, (lim, lim))
+
+
+def run_harness(cmd, timeout=HARNESS_TIMEOUT, env=None, limit=True, **kw):
+    """Runs the Go harness with an address-space limit (not for -race builds, which reserve terabytes): code under
+    test that sizes an allocation from a wrapped count must make the harness die at once with Go's own
+    'out of memory' trace instead of eating the machine's RAM until the kernel kills something."""
+    limit = limit and "race" not in os.path.basename(cmd[0])
+    return subprocess.run(cmd, stdout=subprocess.PIPE, stderr=kw.get("stderr", subprocess.STDOUT), text=True,
+                          timeout=timeout, env=env, cwd=kw.get("cwd"), preexec_fn=_limit_as if limit else None)
+
+
+def oom_in_whispertool(out):
+    """If the harness died of Go's 'out of memory' and the allocating goroutine's innermost non-runtime frame is whispertool
+    code, returns that frame (the real code asked for more than HARNESS_MEM_GB GiB on inputs of a few kilobytes)."""
+    i = out.find("fatal error: ")
+    if i < 0 or not ("out of memory" in out[i:i + 200] or "cannot allocate memory" in out[i:i + 200]):
+        return None
+    g = out.find("\ngoroutine ", i)
+    if g < 0:
+        return None
+    for line in out[g + 1:g + 8000].splitlines()[1:]:     # the frames of the goroutine that was allocating
+        line = line.strip()
+        if line.startswith("goroutine "):
+            break
+        if not line or line.startswith("/") or line.startswith("runtime."):
+            continue
+        m = re.match(r"(github\.com/hnakamur/whispertool.*)\(", line)
+        return m.group(1) if m else None
+    return None
+
+
 _STATES_RE = re.compile(r"(\d+) states generated, (\d+) distinct states found")
 
 
